@@ -36,6 +36,14 @@ VEvents(s, e) ==
   ELSE IF \E a \in 1..A0(s) : Replay(AtomCol(s, a)[1], RowsOfAtom(e.rows, a - 1), T0(s)) # AtomCol(s, a) THEN <<"event-replay-order", s>>
   ELSE <<"ok", s>>
 
+(* the plain counters of a Transitions object *)
+VCounts(s, e) ==
+  IF e.n_events # Len(EvRows(s.hist)) THEN <<"n-events", s>>
+  ELSE IF e.n_states # T0(s) THEN <<"n-states", s>>
+  ELSE IF e.n_floating # A0(s) THEN <<"n-floating", s>>
+  ELSE IF e.n_sites # e.S THEN <<"n-sites", s>>
+  ELSE <<"ok", s>>
+
 VFill(s, e) ==
   LET exp == [a \in 1..A0(s) |-> LET x == [t \in 1..T0(s) |-> s.hist[t][a][1]] IN IF e.act = "Prev" THEN FFill(x) ELSE BFill(x)]
       got == [a \in 1..A0(s) |-> [t \in 1..T0(s) |-> e.arr[t][a]]]
@@ -167,6 +175,7 @@ VTrajSplit(s, e) ==
 Verdict(s, e) ==
   CASE e.act = "Hist" -> VHist(s, e)
     [] e.act = "Events" -> VEvents(s, e)
+    [] e.act = "Counts" -> VCounts(s, e)
     [] e.act \in {"Prev", "Next"} -> VFill(s, e)
     [] e.act = "Jumps" -> VJumps(s, e)
     [] e.act = "Mono" -> VMono(s, e)
